@@ -145,13 +145,15 @@ def run(tier, seed):
                         samples.append({"config": name, "script": [list(x) for x in sc], "observations": r_["obs"]})
                     continue
                 if bad:
-                    # confirm once with a longer idle window
-                    r2 = run_sched(s, dict(inp, scripts=[inp["scripts"][r_["script"]]]), name + "-confirm", quiet="120ms", nshard=1)[0]
-                    r2["obs"] = r2.get("obs") or []
-                    ok2, at2, allowed2 = g.accepts(sc, r2["obs"])
-                    if ok2 and not r2.get("monitor"):
-                        bad = []
-                        wr = wrong_reply(sc, r2["obs"])
+                    # confirm with longer idle windows (a busy machine must not turn into a verdict)
+                    for quiet in ("120ms", "400ms", "1200ms"):
+                        r2 = run_sched(s, dict(inp, scripts=[inp["scripts"][r_["script"]]]), name + "-confirm", quiet=quiet, nshard=1)[0]
+                        r2["obs"] = r2.get("obs") or []
+                        ok2, at2, allowed2 = g.accepts(sc, r2["obs"])
+                        if ok2 and not r2.get("monitor"):
+                            bad = []
+                            wr = wrong_reply(sc, r2["obs"])
+                            break
                 if bad:
                     if len(verdict.violations) < 5:
                         p = vlib.save_replay(prop, {"config": name, "callers": c[0], "script": [list(x) for x in sc],
@@ -250,6 +252,17 @@ def replay(path):
     vlib.ensure_setup()
     vlib.build_harness()
     rep = json.load(open(path))
+    if rep.get("kind") == "fidpool":
+        with vlib.Scratch("replay") as s:
+            f = os.path.join(s, "h.ndjson")
+            open(f, "w").write(json.dumps({"hist": rep["history"], "reused": False}) + "\n")
+            o = os.path.join(s, "o.json")
+            res = vlib.run_shards("fidsched", lambda i, n: ["-in", f, "-out", o], nshard=1)
+            if res[0][0] != 0:
+                raise Inconclusive("fidsched failed: " + res[0][2][-800:])
+            d = json.load(open(o))
+            print(json.dumps(d.get("findings")))
+            return 1 if d.get("findings") else 0
     with vlib.Scratch("replay") as s:
         r = run_sched(s, {"name": "replay", "callers": rep["callers"], "scripts": [rep["script"]]}, "replay", quiet="120ms", nshard=1)[0]
         print(json.dumps(r))
